@@ -43,6 +43,7 @@ type verifC24World struct {
 	heartbeats chan struct{}
 	steps      int
 	maxLen     int
+	minRead    int
 	maxStreams int
 	bigWrites  int
 	flushes    int // enqueue runs still allowed after the program ended
@@ -117,13 +118,18 @@ func (w *verifC24World) ops() []verifC24Op {
 				ops = append(ops, verifC24Op{2, k, i, 0})
 			}
 			if established && verifReadable(s) {
-				for n := 0; n <= w.maxLen; n++ {
+				for n := w.minRead; n <= w.maxLen; n++ {
 					ops = append(ops, verifC24Op{1, k, i, n})
 				}
 			}
 			// Close before establishment = OpenStream giving up (cancelled
 			// context / rejection): it closes the stream the same way.
-			ops = append(ops, verifC24Op{3, k, i, 0})
+			// A stream operation hands its update to the enqueue loop by
+			// rendezvous, so when Close is called the loop HAS taken the
+			// stream's earlier updates: Close waits for a run that took them.
+			if !verifQueuedFor(x.m, s.identifier) {
+				ops = append(ops, verifC24Op{3, k, i, 0})
+			}
 		}
 		if verifEnqueueItems(x.m) > 0 {
 			ops = append(ops, verifC24Op{6, k, 0, 0})
@@ -234,6 +240,7 @@ func VerifC24Conform() {
 		heartbeats: make(chan struct{}, 1),
 		steps:      vParam("steps", 4),
 		maxLen:     vParam("maxlen", 2),
+		minRead:    vParam("minread", 0),
 		maxStreams: vParam("streams", 2),
 		bigWrites:  vParam("bigwrites", 1),
 		flushes:    vParam("flushes", 3),
